@@ -8,7 +8,7 @@ from mirsym.tokproj import TS, TGroup, safe_str, is_id
 ROOTS = list(bridge.GEN_ROOTS)
 ASSUMPTIONS = [
     "FROM expressions with <= 2 (thorough 3) operands (strings of 1..3 characters, character ranges; | and ^ inside FROM) over an 8-point alphabet per base type (first/second/last/middle table entries, a gap pair); lexer+linker natively (shape bridge); the real generator MIR (format_alphabet_annotations, PerVisibleAlphabetConstraints, the LazyLock character tables, fold_constraint_set with a character set) runs in mirsym; the emitted from(..) items are read back as a set and z3 decides set equality with the X.680 semantics for EVERY code point x",
-    "EXCEPT inside FROM is PER-invisible (X.691 10.3.21) and not in the property's list: not judged",
+    "EXCEPT inside FROM (2 operands, ALL EXCEPT, `a | b EXCEPT c`): the annotation must equal the X.680 set difference OR the PER-visible reading of X.691 10.3.21 (EXCEPT and the set after it ignored, which the compiler applies to every other constraint); no annotation = the whole base alphabet",
     "BMPString / UniversalString tables (65 536 entries built by a 65k-iteration loop) exceed the step budget in the quick tier: they are exercised in the thorough tier only",
 ]
 NCHUNK = 8
@@ -37,16 +37,20 @@ class El:
         self.kind, self.a, self.b = kind, a, b
 
     def text(self):
+        if self.kind == 'all':
+            return 'ALL'
         return lit(self.a) if self.kind == 'str' else f"{lit(self.a)}..{lit(self.b)}"
 
     def sem(self, x, base):
+        if self.kind == 'all':
+            return z3.BoolVal(True)
         if self.kind == 'str':
             return z3.Or([x == ord(c) for c in self.a])
         # range: characters of the base alphabet between the end points in the type's canonical order (= code point order)
         return z3.And(x >= ord(self.a), x <= ord(self.b))
 
     def role(self):
-        return f"str{len(self.a)}" if self.kind == 'str' else 'range'
+        return 'ALL' if self.kind == 'all' else f"str{len(self.a)}" if self.kind == 'str' else 'range'
 
 
 def shapes(tier):
@@ -71,6 +75,16 @@ def shapes(tier):
         lo_rng, far = El('range', spts[0], spts[1]), El('str', spts[-1])
         exprs.append(([lo_rng, far], ['|']))
         exprs.append(([far, lo_rng], ['|']))
+        # EXCEPT (in the property's quantifier): X.680 set difference; X.691 10.3.21 makes EXCEPT and the set after it
+        # PER-invisible, which the compiler follows for every other constraint - both readings are accepted
+        for e1, e2 in itertools.product(els[:5] if tier == 'quick' else els, repeat=2):
+            exprs.append(([e1, e2], ['EXCEPT']))
+        exprs.append(([El('all', ''), els[0]], ['EXCEPT']))
+        exprs.append(([El('all', ''), els[-1]], ['EXCEPT']))
+        exprs.append(([lo_rng, far], ['EXCEPT']))
+        exprs.append(([far, lo_rng], ['EXCEPT']))
+        for e1, e2, e3 in itertools.product(els[:3] if tier == 'quick' else els[:5], repeat=3):
+            exprs.append(([e1, e2, e3], ['|', 'EXCEPT']))
         if tier != 'quick':
             for e1, e2, e3 in itertools.product(els[:4], repeat=3):
                 for o1, o2 in itertools.product('|^', repeat=2):
@@ -83,6 +97,8 @@ def shapes(tier):
                 if ctx in ('size-after', 'size-before') and (len(els_) > 1 or tier == 'quick' and els_[0].kind == 'str'):
                     continue
                 if ctx.startswith('size-inter-ext') and (len(els_) > 1 and tier == 'quick' and not (els_[0].kind != els_[1].kind)):
+                    continue
+                if 'EXCEPT' in ops and ctx not in ('assign', 'component', 'size-inter-after'):
                     continue
                 if ctx.startswith('size-inter') and ('^' in ops or (tier == 'quick' and len(els_) > 1 and els_[0].kind == els_[1].kind == 'str')):
                     # FROM and SIZE joined by an intersection inside ONE constraint (folded by fold_constraint_set)
@@ -157,19 +173,41 @@ def judge(items, info, chk, pc, nwarn):
     x = z3.BitVec('x', 32)
     base = BASE[info['ty']]
     in_base = z3.Or([x == c for c in base]) if len(base) < 100 else z3.And(x >= base[0], x <= base[-1])
-    vals = [e.sem(x, base) for e in info['els']]
-    # X.680: INTERSECTION binds tighter than UNION
-    ops = list(info['ops'])
-    i = 0
-    while i < len(ops):
-        if ops[i] == '^':
-            vals[i:i + 2] = [z3.And(vals[i], vals[i + 1])]
-            del ops[i]
-        else:
-            i += 1
-    perm = z3.Or(vals) if len(vals) > 1 else vals[0]
-    want = z3.And(in_base, perm, z3.ULE(x, 0x10FFFF))
-    got = z3.Or([z3.And(z3.UGE(x, lo), z3.ULE(x, hi)) for lo, hi in fr]) if fr else z3.BoolVal(False)
+    def denote(per_reading):
+        vals = [e.sem(x, base) for e in info['els']]
+        ops = list(info['ops'])
+        # X.680: EXCEPT binds tightest, then INTERSECTION, then UNION
+        i = 0
+        while i < len(ops):
+            if ops[i] == 'EXCEPT':
+                vals[i:i + 2] = [vals[i] if per_reading else z3.And(vals[i], z3.Not(vals[i + 1]))]
+                del ops[i]
+            else:
+                i += 1
+        i = 0
+        while i < len(ops):
+            if ops[i] == '^':
+                vals[i:i + 2] = [z3.And(vals[i], vals[i + 1])]
+                del ops[i]
+            else:
+                i += 1
+        perm = z3.Or(vals) if len(vals) > 1 else vals[0]
+        return z3.And(in_base, perm, z3.ULE(x, 0x10FFFF))
+    want = denote(False)
+    # no annotation at all: every character of the base alphabet is permitted
+    got = z3.Or([z3.And(z3.UGE(x, lo), z3.ULE(x, hi)) for lo, hi in fr]) if fr else (in_base if fr is None and 'EXCEPT' in info['ops'] else z3.BoolVal(False))
+    if 'EXCEPT' in info['ops']:
+        s0 = z3.Solver()
+        s0.add(z3.ULE(x, 0x10FFFF), got != want)
+        if s0.check() == z3.unsat:
+            # the X.680 set difference, for every code point
+            if chk is not None:
+                chk.res.obligations += 2
+                chk.res.discharged += 2
+            return []
+        # otherwise the annotation is judged against the PER-visible reading (X.691 10.3.21: EXCEPT and what follows
+        # it is ignored), which is the one the compiler implements for every constraint
+        want = denote(True)
     fails = []
     if chk is not None:
         chk.res.obligations += 2
